@@ -715,6 +715,23 @@ class Threads(EngineBase):
                                                        "pid": rng.choice(
                                                            [2, 3, 4])}})
                 threads.append(ops)
+        elif prog in ("C05t", "C14t"):
+            # read-only queries from several threads on a table that does not
+            # change: every answer must be the single-threaded one
+            meths = ["children", "children_r", "parent", "parents"] \
+                if prog == "C05t" else ["open_files", "open_files", "num_fds",
+                                        "io_counters"]
+            for t in range(nthreads):
+                threads.append([{"op": "call", "m": rng.choice(meths)}
+                                for _ in range(rng.randrange(1, 4))])
+            files = world["files"]
+            start = 300500
+            for pid, ppid in ((T + 1, T), (T + 2, T), (T + 3, T + 1),
+                              (T + 4, 1)):
+                start += rng.randrange(1, 50)
+                world["procs"].append(gen.gen_proc(
+                    rng, pid, ppid, files, rich=(prog == "C14t"),
+                    start=start))
         elif prog == "C02t" and rng.random() < 0.3:
             # targeted shape: one thread is inside is_running() while the
             # other makes the PID change hands and asks too
@@ -829,7 +846,7 @@ class Threads(EngineBase):
                          "api": api, "msg": msg})
 
         shared = {}
-        if prog in ("C16t", "C02t"):
+        if prog in ("C16t", "C02t", "C05t", "C14t"):
             k.begin_op(0)
             shared["p"] = psutil.Process(T)
             k.end_op()
@@ -956,6 +973,8 @@ class Threads(EngineBase):
                         blocks_active.remove(me)
                 else:
                     rec["out"] = ("value", call_getter(p, op["m"]))
+            elif prog in ("C05t", "C14t"):
+                rec["out"] = ("value", self._ro_call(shared["p"], op["m"]))
             elif prog == "C02t":
                 p = shared["p"]
                 if kind == "is_running":
@@ -1263,6 +1282,59 @@ class Threads(EngineBase):
               "process_iter", "sequential iteration after the threads "
               "raised %r" % (e,))
 
+    @staticmethod
+    def _ro_call(p, m):
+        if m == "children":
+            return [c.pid for c in p.children()]
+        if m == "children_r":
+            return sorted(c.pid for c in p.children(recursive=True))
+        if m == "parent":
+            q = p.parent()
+            return q.pid if q is not None else None
+        if m == "parents":
+            return [q.pid for q in p.parents()]
+        if m == "open_files":
+            return sorted(tuple(x) for x in p.open_files())
+        if m == "io_counters":
+            return tuple(p.io_counters())
+        return getattr(p, m)()
+
+    def _check_readonly(self, W, psutil, k, plan, records, V, probes, prop):
+        ref = {}
+        k.begin_op(9000)
+        for m in sorted({r["op"]["m"] for recs in records for r in recs}):
+            try:
+                ref[m] = ("value", self._ro_call(self._shared["p"], m))
+            except BaseException as e:  # noqa: BLE001
+                if is_harness_exc(e):
+                    raise
+                ref[m] = ("exc", exc_class(psutil, e))
+        k.end_op()
+        for t, recs in enumerate(records):
+            for rec in recs:
+                out = rec.get("out")
+                if out is None:
+                    continue
+                m = rec["op"]["m"]
+                got = out if out[0] == "value" else (
+                    "exc", exc_class(psutil, out[1]))
+                if got != ref[m]:
+                    V(prop + ".concurrent_readers", ["threads"] + (
+                        [got[1]] if got[0] == "exc" else []), m,
+                      "thread %d: %s() -> %r while other threads were "
+                      "querying too; alone, on the same unchanged table, it "
+                      "answers %r" % (t, m, got[1] if got[0] == "exc"
+                                      else out[1], ref[m][1]))
+                else:
+                    probes["concurrent_reader_checked"] = probes.get(
+                        "concurrent_reader_checked", 0) + 1
+
+    def check_C05t(self, W, psutil, k, plan, records, V, probes, keys):
+        self._check_readonly(W, psutil, k, plan, records, V, probes, "C05")
+
+    def check_C14t(self, W, psutil, k, plan, records, V, probes, keys):
+        self._check_readonly(W, psutil, k, plan, records, V, probes, "C14")
+
     def check_C02t(self, W, psutil, k, plan, records, V, probes, keys):
         evs = self._shared.get("ev_versions") or []
         # the version from which the object's own process is out of the
@@ -1543,7 +1615,8 @@ class Threads(EngineBase):
                       "wrap_numbers", "cpu_percent", "cpu_times_percent",
                       "_remove_dead", "acc:read", "acc:open",
                       "acc:listdir", "is_running", "_init", "_get_ident",
-                      "__eq__")
+                      "__eq__", "ppid_map", "open_files", "children",
+                      "readinto")
         shape = base.get("shape")
         if shape and len(sites) == 2 and all(sites):
             budget = 30 if tier == "quick" else 90
